@@ -30,6 +30,7 @@ def build_tree(base, spec):
         with open(full, 'wb') as f:
             f.write(data)
         t0 = spec.get('mtime_base', 1500000000)     # 2017, or (clock skew, unpacked archives) a date AHEAD of the server's clock
+        t0 += spec.get('mtime_frac', 0.0)           # file systems keep sub-second times; HTTP dates do not
         os.utime(full, (t0 + len(rel), t0 + len(rel)))      # same date in every root: one If-Modified-Since verdict per request
         files[full] = data
     for ri in range(len(spec['roots'])):
@@ -177,7 +178,13 @@ def impl(case):
                     target = newp
                 except OSError:
                     pass                  # a file is in the way of the directory: nothing changes
-            if rq['ims'] is not None:
+            if rq['ims'] == 'echo':
+                # revalidation as a client does it: whatever Last-Modified the server sends is echoed back
+                r0 = wsgi.call(app, wsgi.environ((prefix + path).encode('utf8').decode('latin-1')))
+                if r0.header('Last-Modified'):
+                    headers['If-Modified-Since'] = r0.header('Last-Modified')
+                    state['conditional'] = True
+            elif rq['ims'] is not None:
                 mt = int(os.path.getmtime(target)) if target else 1500000000
                 headers['If-Modified-Since'] = http_date(mt + {'before': -100, 'at': 0, 'after': 100}[rq['ims']])
                 state['conditional'] = True
@@ -198,11 +205,12 @@ def impl(case):
             if target:
                 rec['target'] = target
                 rec['target_mtime_http'] = http_date(int(os.path.getmtime(target)))
+                rec['target_mtime_http_round'] = http_date(int(round(os.path.getmtime(target))))
                 rec['target_sha'] = hashlib.sha1(files[target]).hexdigest()
                 rec['target_len'] = len(files[target])
                 rec['has_ext_type'] = mimetypes.guess_type(target)[0] is not None
                 if rq['ims'] is not None:
-                    rec['mtime_cmp'] = {'before': False, 'at': True, 'after': True}[rq['ims']]
+                    rec['mtime_cmp'] = {'before': False, 'at': True, 'after': True, 'echo': True}[rq['ims']]
             out['requests'].append(rec)
         return out
     finally:
@@ -233,6 +241,9 @@ def oracle(case, obs):
                 return ('%s: Content-Length %s for %d body bytes' % (what, o['clen'], o['len']), 'content-length')
             if not o['lm'] or not o['ctype']:
                 return ('%s: missing Last-Modified / Content-Type' % what, 'headers')
+            import re as _re
+            if not _re.match(r'^[A-Za-z0-9.+-]+/[A-Za-z0-9.+-]+', o['ctype']):
+                return ('%s: Content-Type %r is not a media type' % (what, o['ctype']), 'content-type')
         if o['status'] == 304 and o['len'] != 0:
             return ('%s: 304 with a body' % what, '304-body')
         # served-at-its-path: a clean request for an existing file, no fault, not conditional
@@ -241,7 +252,7 @@ def oracle(case, obs):
             first = posixpath.normpath(rq['path'].lstrip('/')).split('/')[0]
             if not first.startswith('..'):
                 if rq['ims'] in (None, 'before'):
-                    if o['status'] != 200 or o['sha'] != o['target_sha'] or o['lm'] != o['target_mtime_http']:
+                    if o['status'] != 200 or o['sha'] != o['target_sha'] or o['lm'] not in (o['target_mtime_http'], o.get('target_mtime_http_round')):
                         return ('%s: the regular file %s inside a search directory was not served faithfully (status %s)'
                                 % (what, o['target'], o['status']), 'not-served')
                 elif o['status'] != 304:
@@ -339,6 +350,11 @@ def gen_case(rng, tier):
             reqs.append({'path': '/' + rel, 'ims': None, 'fault': None, 'errno': 'EIO', 'override': True})
             reqs.append({'path': '/' + rel, 'ims': 'at', 'fault': None, 'errno': 'EIO'})
     tree['mtime_base'] = rng.choice([1500000000, 1500000000, 4102444800])
+    tree['mtime_frac'] = rng.choice([0.0, 0.0, 0.25, 0.75, 0.999])
+    if tree['mtime_frac']:
+        for rq in reqs:
+            if rq['ims'] == 'at':
+                rq['ims'] = 'echo'        # 'the file's own date' is what the server says it is
     return {'tree': tree, 'mount': mount, 'requests': reqs}
 
 
